@@ -367,7 +367,7 @@ func (c *Check) callgrindRules() {
 	if add, ok := upd.Value.(*ssa.BinOp); ok && add.Op == token.ADD {
 		if lc, ok := add.X.(*ssa.Call); ok {
 			if b, ok := lc.Call.Value.(*ssa.Builtin); ok && b.Name() == "len" && lc.Call.Args[0] == ssa.Value(names) {
-				if k, ok := add.Y.(*ssa.Const); ok && k.Int64() == 1 {
+				if k, ok := add.Y.(*ssa.Const); ok && safeInt64(k) == 1 {
 					idOK = true
 				}
 			}
@@ -498,12 +498,12 @@ func variadicValues(v ssa.Value) []ssa.Value {
 			continue
 		}
 		for _, r2 := range *ia.Referrers() {
-			if st, ok := r2.(*ssa.Store); ok && st.Addr == ia && int(idx.Int64()) < n {
+			if st, ok := r2.(*ssa.Store); ok && st.Addr == ia && int(safeInt64(idx)) < n {
 				v := st.Val
 				if mi, ok := v.(*ssa.MakeInterface); ok {
 					v = mi.X
 				}
-				out[idx.Int64()] = v
+				out[safeInt64(idx)] = v
 			}
 		}
 	}
